@@ -19,7 +19,10 @@ pub fn prop() -> Prop {
          fields of Valid<Schema>: query root present; roots are distinct object types; referenced types exist with the \
          right kind; implementers satisfy field / argument / covariance / transitive-interface contracts; no non-null \
          input-object cycle; no user-defined name starts with `__`; built-in scalars in the type map = built-in scalars \
-         referenced by a field, argument, input field or directive-definition argument. Non-trivial: accepted schema \
+         referenced by a field, argument, input field or directive-definition argument. When validation pruned built-in \
+         scalars, the schema reached through the API (into_inner, add references to some or all pruned scalars as a new \
+         field / argument / input field / directive argument, validate again) is inspected with the same predicates \
+         (class accepted/after-api-edit). Non-trivial: accepted schema \
          with at least one interface implementation or input object; distinct by text. Classes: accepted/rejected x mutated, \
          pruned-scalar count.",
     )
@@ -369,7 +372,7 @@ pub fn inconsistencies(s: &Schema) -> Vec<(String, String)> {
     out
 }
 
-fn run(text: &str, mutated: bool, ctx: &mut Ctx) -> Outcome {
+fn run(text: &str, mutated: bool, ctx: &mut Ctx, edits: Option<&mut Choices>) -> Outcome {
     let valid = match ap::parse_and_validate(text) {
         Ok(v) => v,
         Err(_) => {
@@ -395,18 +398,45 @@ fn run(text: &str, mutated: bool, ctx: &mut Ctx) -> Outcome {
     }
     ctx.nontrivial = has_impl || has_input;
     let fails = inconsistencies(schema);
-    let fails = fails.into_iter().map(|(s, d)| (s, format!("{}\n{}", d, text))).collect();
+    let mut fails: Vec<(String, String)> = fails.into_iter().map(|(s, d)| (s, format!("{}\n{}", d, text))).collect();
+    // "all schemas accepted by validation" includes the ones reached through the API: unwrap the valid
+    // schema, add references to built-in scalars that validation pruned (C16's edits, which keep a
+    // valid schema valid), validate again and inspect the result with the same predicates
+    if let (Some(c), true) = (edits, fails.is_empty()) {
+        let missing: Vec<&str> = SCALARS.iter().copied().filter(|s| !schema.types.contains_key(*s)).collect();
+        if !missing.is_empty() && c.bool(170) {
+            let mut s2 = valid.clone().into_inner();
+            let mut plan = vec![];
+            let all = c.bool(128);
+            for (k, sc) in missing.iter().enumerate() {
+                if all || c.coin() {
+                    plan.push(super::c16::edit(c, &mut s2, sc, k));
+                }
+            }
+            if !plan.is_empty() {
+                match s2.validate() {
+                    Ok(v2) => {
+                        ctx.class("accepted/after-api-edit");
+                        for (sig, d) in inconsistencies(&v2) {
+                            fails.push((format!("{}|after-edit", sig), format!("{}\nafter into_inner + {:?} + validate, starting from\n{}", d, plan, text)));
+                        }
+                    }
+                    Err(_) => ctx.class("rejected/after-api-edit"),
+                }
+            }
+        }
+    }
     ctx.pick_failure(fails)
 }
 
 pub fn check_text(text: &str, ctx: &mut Ctx) -> Outcome {
     ctx.set_sample(text.to_string());
-    run(text, false, ctx)
+    run(text, false, ctx, None)
 }
 
 pub fn check(bytes: &[u8], ctx: &mut Ctx) -> Outcome {
     let mut c = Choices::new(bytes);
     let (text, labels) = super::c14::gen_case_weighted(&mut c, ctx.tier, &[45, 40, 15]);
     ctx.set_sample(format!("# mutations: {:?}\n{}", labels, text));
-    run(&text, !labels.is_empty(), ctx)
+    run(&text, !labels.is_empty(), ctx, Some(&mut c))
 }
